@@ -32,6 +32,8 @@ Lemma tables_complete : calls_complete && access_complete && new_complete = true
 Proof. vm_compute. reflexivity. Qed.
 Lemma no_outside_lockers : outside_ok = true.
 Proof. vm_compute. reflexivity. Qed.
+Lemma node_identity : node_identity_ok = true.
+Proof. vm_compute. reflexivity. Qed.
 
 (** the table is not vacuous: it contains the sites the properties talk about *)
 Definition count (f : site -> bool) := length (filter f sites).
